@@ -33,9 +33,25 @@
      prefixes of their own (Ex… expressions, St… statements, Gv… values, Go… types, B… binary operators, go_… functions).
    Executable definitions only. *)
 From CP Require Export Bytes Runtime TimePb.
-From Coq Require Export String.
-From Coq Require Import Ascii DecimalString.
 Local Open Scope Z_scope.
+
+(* ---- names and string literals: a byte list with a string notation of its own (Coq's [string] is avoided on purpose: extracted
+        next to the other models it would shadow OCaml's string type in the driver) ------------------------------------- *)
+Inductive gname := GName (l : list byte).
+Definition gname_of_bytes (l : list byte) : gname := GName l.
+Definition gname_bytes (n : gname) : list byte := match n with GName l => l end.
+Declare Scope gname_scope.
+Delimit Scope gname_scope with gname.
+Bind Scope gname_scope with gname.
+String Notation gname gname_of_bytes gname_bytes : gname_scope.
+
+Fixpoint gf_bytes_eqb (a b : list byte) : bool :=
+  match a, b with
+  | [], [] => true
+  | x :: a', y :: b' => Byte.eqb x y && gf_bytes_eqb a' b'
+  | _, _ => false
+  end.
+Definition str_eq (a b : gname) : bool := gf_bytes_eqb (gname_bytes a) (gname_bytes b).
 
 (* ---- types --------------------------------------------------------------------------------------------------------- *)
 Inductive ity := TInt | TInt8 | TInt16 | TInt32 | TInt64 | TUint | TUint8 | TUint16 | TUint32 | TUint64.
@@ -69,8 +85,8 @@ Inductive gotype :=
 | GoBool
 | GoBytes                      (* []byte *)
 | GoError
-| GoNamed (q : string)         (* T or pkg.T *)
-| GoPtr (q : string).          (* *T or *pkg.T *)
+| GoNamed (q : gname)         (* T or pkg.T *)
+| GoPtr (q : gname).          (* *T or *pkg.T *)
 
 (* ---- syntax -------------------------------------------------------------------------------------------------------- *)
 Inductive unop := UNeg | UNot | UCompl.                                   (* -e  !e  ^e *)
@@ -80,28 +96,28 @@ Inductive binop :=
 
 Inductive gexpr :=
 | ExConst (z : Z)                                      (* integer literal: an untyped constant *)
-| ExStr (s : string)                                   (* string literal (only as the format of fmt.Errorf / inside panic(…)) *)
+| ExStr (s : gname)                                   (* string literal (only as the format of fmt.Errorf / inside panic(…)) *)
 | ExTrue | ExFalse | ExNil
-| ExVar (x : string)                                   (* a local, else a package-level const / var of the file *)
-| ExQual (pkg name : string)                           (* pkg.Name of an imported package *)
-| ExSel (e : gexpr) (f : string)                        (* e.f: a struct field (through a pointer: nil panics) *)
+| ExVar (x : gname)                                   (* a local, else a package-level const / var of the file *)
+| ExQual (pkg name : gname)                           (* pkg.Name of an imported package *)
+| ExSel (e : gexpr) (f : gname)                        (* e.f: a struct field (through a pointer: nil panics) *)
 | ExUn (op : unop) (e : gexpr)
 | ExBin (op : binop) (a b : gexpr)
 | ExConv (t : ity) (e : gexpr)                          (* T(e), T a predeclared integer type *)
 | ExLen (e : gexpr)
 | ExIndex (s i : gexpr)
-| ExCall (f : string) (args : list gexpr)               (* a function of the same file *)
-| ExPkgCall (pkg f : string) (args : list gexpr)        (* pkg.F(args) *)
-| ExMethod (recv : gexpr) (m : string) (args : list gexpr)   (* recv.M(args) *)
+| ExCall (f : gname) (args : list gexpr)               (* a function of the same file *)
+| ExPkgCall (pkg f : gname) (args : list gexpr)        (* pkg.F(args) *)
+| ExMethod (recv : gexpr) (m : gname) (args : list gexpr)   (* recv.M(args) *)
 | ExDeref (e : gexpr)                                   (* *e *)
 | ExAddr (e : gexpr)                                    (* &x *)
-| ExLit (ty : string) (fs : list (string * gexpr)).   (* T{F: e, …} *)
+| ExLit (ty : gname) (fs : list (gname * gexpr)).   (* T{F: e, …} *)
 
-Inductive glval := LvVar (x : string) | LvIndex (x : string) (i : gexpr) | LvField (x : string) (f : string).   (* x | x[i] | x.f *)
+Inductive glval := LvVar (x : gname) | LvIndex (x : gname) (i : gexpr) | LvField (x : gname) (f : gname).   (* x | x[i] | x.f *)
 
 Inductive gstmt :=
-| StVar (x : string) (t : gotype)                          (* var x T *)
-| StDefine (x : string) (e : gexpr)                      (* x := e *)
+| StVar (x : gname) (t : gotype)                          (* var x T *)
+| StDefine (x : gname) (e : gexpr)                      (* x := e *)
 | StAssign (l : glval) (e : gexpr)                        (* l = e *)
 | StOpAssign (op : binop) (l : glval) (e : gexpr)         (* l op= e *)
 | StInc (l : glval) | StDec (l : glval)                    (* l++  l-- *)
@@ -113,9 +129,9 @@ Inductive gstmt :=
 | StPanic (e : gexpr)
 | StExpr (e : gexpr).                                    (* a call as a statement *)
 
-Record fundecl := { fn_name : string; fn_params : list (string * gotype); fn_results : list (string * gotype); fn_body : list gstmt }.
+Record fundecl := { fn_name : gname; fn_params : list (gname * gotype); fn_results : list (gname * gotype); fn_body : list gstmt }.
 (* a file: package-level `const x = e` / `var x = e` and its functions *)
-Record program := { pg_globals : list (string * gexpr); pg_funs : list fundecl }.
+Record program := { pg_globals : list (gname * gexpr); pg_funs : list fundecl }.
 
 (* ---- values -------------------------------------------------------------------------------------------------------- *)
 Inductive gvalue :=
@@ -124,24 +140,24 @@ Inductive gvalue :=
 | GvBool (b : bool)
 | GvNil
 | GvBytes (l : list byte)
-| GvRec (fs : list (string * gvalue))
-| GvPtr (p : option (list (string * gvalue)))
-| GvErr (e : option string)
+| GvRec (fs : list (gname * gvalue))
+| GvPtr (p : option (list (gname * gvalue)))
+| GvErr (e : option gname)
 | GvTime (ns : Z)
-| GvOpaque (tag : string).
+| GvOpaque (tag : gname).
 
-Definition goenv := list (string * gvalue).
+Definition goenv := list (gname * gvalue).
 
-Fixpoint go_get (x : string) (en : goenv) : option gvalue :=
+Fixpoint go_get (x : gname) (en : goenv) : option gvalue :=
   match en with
   | [] => None
-  | (y, v) :: t => if String.eqb x y then Some v else go_get x t
+  | (y, v) :: t => if str_eq x y then Some v else go_get x t
   end.
-Fixpoint go_set (x : string) (v : gvalue) (en : goenv) : option goenv :=
+Fixpoint go_set (x : gname) (v : gvalue) (en : goenv) : option goenv :=
   match en with
   | [] => None
   | (y, w) :: t =>
-    if String.eqb x y then Some ((y, v) :: t)
+    if str_eq x y then Some ((y, v) :: t)
     else match go_set x v t with Some t' => Some ((y, w) :: t') | None => None end
   end.
 (* leaving a block: the variables declared inside it disappear *)
@@ -169,8 +185,6 @@ Definition go_lift {A} (r : gores A) (k : A -> stres) : stres :=
   match r with ErOk a => k a | ErPanic => SrPanic | ErFuel => SrFuel | ErStuck => SrStuck end.
 
 (* ---- arithmetic ---------------------------------------------------------------------------------------------------- *)
-Definition str_eq (a b : string) : bool := String.eqb a b.
-
 Definition ity_code (t : ity) : nat :=
   match t with
   | TInt => 0 | TInt8 => 1 | TInt16 => 2 | TInt32 => 3 | TInt64 => 4
@@ -289,7 +303,7 @@ Definition conv (t : ity) (v : gvalue) : gores gvalue :=
   end.
 
 (* ---- typing of stores: what a variable / parameter / result of a given shape accepts ---------------------------------- *)
-Definition named_underlying (q : string) : option ity :=
+Definition named_underlying (q : gname) : option ity :=
   if str_eq q "time.Duration" then Some TInt64
   else if str_eq q "protoiface.MarshalInputFlags" then Some TUint8
   else if str_eq q "protoiface.UnmarshalInputFlags" then Some TUint8
@@ -352,7 +366,7 @@ Definition go_zero (g : gotype) : option gvalue :=
   end.
 
 (* ---- records, slices ----------------------------------------------------------------------------------------------- *)
-Definition go_field (v : gvalue) (f : string) : gores gvalue :=
+Definition go_field (v : gvalue) (f : gname) : gores gvalue :=
   match v with
   | GvRec fs | GvPtr (Some fs) => match go_get f fs with Some w => ErOk w | None => ErStuck end
   | GvPtr None => ErPanic                                                       (* nil pointer dereference *)
@@ -373,49 +387,62 @@ Definition bytes_set (l : list byte) (i : Z) (b : Z) : gores (list byte) :=
 
 Definition has_bytes (vs : list gvalue) : bool :=
   existsb (fun v => match v with GvBytes _ => true | _ => false end) vs.
-Definition has_const (fs : list (string * gvalue)) : bool :=
+Definition has_const (fs : list (gname * gvalue)) : bool :=
   existsb (fun kv => match snd kv with GvConst _ | GvNil | GvBytes _ => true | _ => false end) fs.
 
 (* ---- library ------------------------------------------------------------------------------------------------------- *)
-Definition lib_const (p n : string) : option gvalue :=
+Definition lib_const (p n : gname) : option gvalue :=
   if str_eq p "time" && str_eq n "Second" then Some (GvInt TInt64 1000000000)
-  else if str_eq p "io" && str_eq n "ErrUnexpectedEOF" then Some (GvErr (Some "unexpected EOF"%string))
+  else if str_eq p "io" && str_eq n "ErrUnexpectedEOF" then Some (GvErr (Some "unexpected EOF"%gname))
   else if str_eq p "protoiface" && str_eq n "MarshalDeterministic" then Some (GvInt TUint8 1)
   else if str_eq p "protoiface" && str_eq n "MarshalUseCachedSize" then Some (GvInt TUint8 2)
   else if str_eq p "protoiface" && str_eq n "UnmarshalDiscardUnknown" then Some (GvInt TUint8 1)
   else None.
 
-Definition dec_string (z : Z) : string := NilZero.string_of_int (Z.to_int z).
+(* decimal digits of a natural number, most significant first; fuel = number of bits + 1 *)
+Fixpoint dec_digits (fuel : nat) (z : Z) (acc : list byte) : list byte :=
+  match fuel with
+  | O => acc
+  | S f =>
+    let d := n2b (Z.to_N (48 + z mod 10)) in
+    if z <? 10 then d :: acc else dec_digits f (z / 10) (d :: acc)
+  end.
+Definition dec_string (z : Z) : list byte :=
+  let a := Z.abs z in
+  let ds := dec_digits (S (Z.to_nat (Z.log2 a))) a [] in
+  if z <? 0 then x2d :: ds else ds.
 
 (* fmt.Errorf's message: %d with integer arguments only; every argument must be used *)
-Fixpoint fmt_args (f : string) (args : list gvalue) : option string :=
+Fixpoint fmt_bytes (f : list byte) (args : list gvalue) : option (list byte) :=
   match f with
-  | EmptyString => match args with [] => Some EmptyString | _ => None end
-  | String c rest =>
-    if Ascii.eqb c "%"%char then
+  | [] => match args with [] => Some [] | _ => None end
+  | c :: rest =>
+    if Byte.eqb c x25 then                                                     (* '%' *)
       match rest with
-      | String d rest' =>
-        if Ascii.eqb d "d"%char then
+      | d :: rest' =>
+        if Byte.eqb d x64 then                                                   (* 'd' *)
           match args with
           | GvInt _ z :: args' =>
-            match fmt_args rest' args' with Some s => Some (String.append (dec_string z) s) | None => None end
+            match fmt_bytes rest' args' with Some s => Some (dec_string z ++ s) | None => None end
           | _ => None
           end
         else None
-      | EmptyString => None
+      | [] => None
       end
-    else match fmt_args rest args with Some s => Some (String c s) | None => None end
+    else match fmt_bytes rest args with Some s => Some (c :: s) | None => None end
   end.
+Definition fmt_args (f : gname) (args : list gvalue) : option gname :=
+  match fmt_bytes (gname_bytes f) args with Some l => Some (GName l) | None => None end.
 
-Definition ts_fields (s n : Z) : list (string * gvalue) :=
-  [("Seconds"%string, GvInt TInt64 s); ("Nanos"%string, GvInt TInt32 n)].
-Definition ts_of_fields (fs : list (string * gvalue)) : option ts :=
+Definition ts_fields (s n : Z) : list (gname * gvalue) :=
+  [("Seconds"%gname, GvInt TInt64 s); ("Nanos"%gname, GvInt TInt32 n)].
+Definition ts_of_fields (fs : list (gname * gvalue)) : option ts :=
   match go_get "Seconds" fs, go_get "Nanos" fs with
   | Some (GvInt TInt64 s), Some (GvInt TInt32 n) => Some {| secs := s; nanos := n |}
   | _, _ => None
   end.
 
-Definition lib_call (p f : string) (args : list gvalue) : gores gvalue :=
+Definition lib_call (p f : gname) (args : list gvalue) : gores gvalue :=
   if str_eq p "bits" && str_eq f "Len64" then
     match args with
     | [GvInt TUint64 x] => ErOk (GvInt TInt (Z.of_N (len64 (Z.to_N x))))
@@ -430,7 +457,7 @@ Definition lib_call (p f : string) (args : list gvalue) : gores gvalue :=
     end
   else ErStuck.
 
-Definition lib_method (recv : gvalue) (m : string) (args : list gvalue) : gores gvalue :=
+Definition lib_method (recv : gvalue) (m : gname) (args : list gvalue) : gores gvalue :=
   if str_eq m "AsTime" then                                                     (* method AsTime of a pointer to timestamppb.Timestamp *)
     match recv, args with
     | GvPtr None, [] => ErOk (GvTime 0)
@@ -447,7 +474,7 @@ Definition lib_method (recv : gvalue) (m : string) (args : list gvalue) : gores 
 (* ---- the interpreter ----------------------------------------------------------------------------------------------- *)
 Section Interp.
   Variable genv : goenv.                                         (* the file's package-level constants and variables, evaluated *)
-  Variable call : string -> list gvalue -> gres.                (* functions of the same file, one level of call depth less *)
+  Variable call : gname -> list gvalue -> gres.                (* functions of the same file, one level of call depth less *)
   Variable lfuel : nat.                                        (* iterations allowed to each for statement *)
 
   Fixpoint go_eval (en : goenv) (e : gexpr) {struct e} : gores gvalue :=
@@ -515,7 +542,7 @@ Section Interp.
       | _ => ErStuck
       end
     | ExLit _ fs =>
-      go_bind ((fix fields (l : list (string * gexpr)) {struct l} : gores (list (string * gvalue)) :=
+      go_bind ((fix fields (l : list (gname * gexpr)) {struct l} : gores (list (gname * gvalue)) :=
                 match l with
                 | [] => ErOk []
                 | (k, e') :: t => go_bind (go_eval en e') (fun v => go_bind (fields t) (fun vs => ErOk ((k, v) :: vs)))
@@ -692,7 +719,7 @@ Section Interp.
     end.
 End Interp.
 
-Fixpoint find_fun (fs : list fundecl) (f : string) : option fundecl :=
+Fixpoint find_fun (fs : list fundecl) (f : gname) : option fundecl :=
   match fs with
   | [] => None
   | d :: t => if str_eq (fn_name d) f then Some d else find_fun t f
@@ -700,7 +727,7 @@ Fixpoint find_fun (fs : list fundecl) (f : string) : option fundecl :=
 
 (* the environment of a body is  <locals, innermost first> ++ <named results> ++ <parameters in declaration order>, so the
    parameters are always its last entries *)
-Fixpoint bind_params (ps : list (string * gotype)) (args : list gvalue) : option goenv :=
+Fixpoint bind_params (ps : list (gname * gotype)) (args : list gvalue) : option goenv :=
   match ps, args with
   | [], [] => Some []
   | (x, g) :: ps', v :: args' =>
@@ -710,7 +737,7 @@ Fixpoint bind_params (ps : list (string * gotype)) (args : list gvalue) : option
     end
   | _, _ => None
   end.
-Fixpoint bind_results (rs : list (string * gotype)) : option goenv :=
+Fixpoint bind_results (rs : list (gname * gotype)) : option goenv :=
   match rs with
   | [] => Some []
   | (x, g) :: rs' =>
@@ -720,7 +747,7 @@ Fixpoint bind_results (rs : list (string * gotype)) : option goenv :=
          | _, _ => None
          end
   end.
-Fixpoint coerce_results (rs : list (string * gotype)) (vs : list gvalue) : option (list gvalue) :=
+Fixpoint coerce_results (rs : list (gname * gotype)) (vs : list gvalue) : option (list gvalue) :=
   match rs, vs with
   | [], [] => Some []
   | (_, g) :: rs', v :: vs' =>
@@ -731,7 +758,7 @@ Fixpoint coerce_results (rs : list (string * gotype)) (vs : list gvalue) : optio
   | _, _ => None
   end.
 Definition final_params (n : nat) (en : goenv) : list gvalue := map snd (skipn (List.length en - n) en).
-Fixpoint named_results (rs : list (string * gotype)) (en : goenv) : option (list gvalue) :=
+Fixpoint named_results (rs : list (gname * gotype)) (en : goenv) : option (list gvalue) :=
   match rs with
   | [] => Some []
   | (x, _) :: rs' =>
@@ -741,7 +768,7 @@ Fixpoint named_results (rs : list (string * gotype)) (en : goenv) : option (list
     end
   end.
 
-Fixpoint go_run (p : program) (genv : goenv) (lfuel : nat) (depth : nat) (f : string) (args : list gvalue) {struct depth} : gres :=
+Fixpoint go_run (p : program) (genv : goenv) (lfuel : nat) (depth : nat) (f : gname) (args : list gvalue) {struct depth} : gres :=
   match depth with
   | O => GFuel
   | S d =>
@@ -776,7 +803,7 @@ Fixpoint go_run (p : program) (genv : goenv) (lfuel : nat) (depth : nat) (f : st
 Definition genv_of (p : program) : goenv :=
   flat_map (fun xe => match go_eval [] (fun _ _ => GStuck) [] (snd xe) with ErOk v => [(fst xe, v)] | _ => [] end) (pg_globals p).
 
-Definition run_fun (p : program) (lfuel depth : nat) (f : string) (args : list gvalue) : gres :=
+Definition run_fun (p : program) (lfuel depth : nat) (f : gname) (args : list gvalue) : gres :=
   go_run p (genv_of p) lfuel depth f args.
 
 (* ---- decidable equality of programs and values --------------------------------------------------------------------- *)
@@ -822,7 +849,7 @@ Fixpoint gexpr_eqb (a b : gexpr) {struct a} : bool :=
   | ExAddr e, ExAddr e' => gexpr_eqb e e'
   | ExLit t fs, ExLit t' fs' =>
     str_eq t t' &&
-    (fix feq (l l' : list (string * gexpr)) {struct l} : bool :=
+    (fix feq (l l' : list (gname * gexpr)) {struct l} : bool :=
        match l, l' with
        | [], [] => true
        | (k, x) :: r, (k', y) :: r' => str_eq k k' && gexpr_eqb x y && feq r r'
@@ -882,7 +909,7 @@ Fixpoint gstmts_eqb (a b : list gstmt) {struct a} : bool :=
   | x :: a', y :: b' => gstmt_eqb x y && gstmts_eqb a' b'
   | _, _ => false
   end.
-Fixpoint sig_eqb (a b : list (string * gotype)) : bool :=
+Fixpoint sig_eqb (a b : list (gname * gotype)) : bool :=
   match a, b with
   | [], [] => true
   | (x, g) :: a', (y, h) :: b' => str_eq x y && gotype_eqb g h && sig_eqb a' b'
@@ -892,16 +919,10 @@ Definition fundecl_eqb (a b : fundecl) : bool :=
   str_eq (fn_name a) (fn_name b) && sig_eqb (fn_params a) (fn_params b) && sig_eqb (fn_results a) (fn_results b)
   && gstmts_eqb (fn_body a) (fn_body b).
 
-Fixpoint gf_bytes_eqb (a b : list byte) : bool :=
-  match a, b with
-  | [], [] => true
-  | x :: a', y :: b' => Byte.eqb x y && gf_bytes_eqb a' b'
-  | _, _ => false
-  end.
-Definition ostr_eqb (a b : option string) : bool :=
+Definition ostr_eqb (a b : option gname) : bool :=
   match a, b with Some x, Some y => str_eq x y | None, None => true | _, _ => false end.
 Fixpoint value_eqb (a b : gvalue) {struct a} : bool :=
-  let feq := fix feq (l l' : list (string * gvalue)) {struct l} : bool :=
+  let feq := fix feq (l l' : list (gname * gvalue)) {struct l} : bool :=
       match l, l' with
       | [], [] => true
       | (k, x) :: t, (k', y) :: t' => str_eq k k' && value_eqb x y && feq t t'
@@ -940,7 +961,7 @@ Definition gres_eqb (a b : gres) : bool :=
    Skip and of the two marshal option builders named; the driver checks on every run that the freshly translated
    declarations are equal to these constants).
    ====================================================================================================================== *)
-Local Open Scope string_scope.
+Local Open Scope gname_scope.
 
 (* ---- runtime/runtime.go ---------------------------------------------------------------------------------------------- *)
 
@@ -984,7 +1005,7 @@ Definition skip_guards : list gstmt :=
 Definition skip_varint_for (rest : list gstmt) : gstmt :=
   StFor [StDefine "shift" (ExConv TUint (ExConst 0))] None [StOpAssign BAdd (LvVar "shift") (ExConst 7)] (skip_guards ++ rest).
 (* b := dAtA[iNdEx]; iNdEx++; <target> |= (<T>(b) & 0x7F) << shift; if b < 0x80 { break } *)
-Definition skip_accumulate (target : string) (t : ity) : list gstmt :=
+Definition skip_accumulate (target : gname) (t : ity) : list gstmt :=
   [StDefine "b" (ExIndex (ExVar "dAtA") (ExVar "iNdEx"));
    StInc (LvVar "iNdEx");
    StOpAssign BOr (LvVar target) (ExBin BShl (ExBin BAnd (ExConv t (ExVar "b")) (ExConst 127)) (ExVar "shift"));
@@ -1081,13 +1102,13 @@ Definition canon_UnmarshalInputToOptions : fundecl :=
                     ("Resolver", ExSel (ExVar "input") "Resolver")]]] |}.
 
 (* var ( ErrInvalidLength = fmt.Errorf("…"); ErrIntOverflow = …; ErrUnexpectedEndOfGroup = …; ErrRecursionDepth = … ) *)
-Definition canon_var_ErrInvalidLength : string * gexpr :=
+Definition canon_var_ErrInvalidLength : gname * gexpr :=
   ("ErrInvalidLength", ExPkgCall "fmt" "Errorf" [ExStr "proto: negative length found during unmarshaling"]).
-Definition canon_var_ErrIntOverflow : string * gexpr :=
+Definition canon_var_ErrIntOverflow : gname * gexpr :=
   ("ErrIntOverflow", ExPkgCall "fmt" "Errorf" [ExStr "proto: integer overflow"]).
-Definition canon_var_ErrUnexpectedEndOfGroup : string * gexpr :=
+Definition canon_var_ErrUnexpectedEndOfGroup : gname * gexpr :=
   ("ErrUnexpectedEndOfGroup", ExPkgCall "fmt" "Errorf" [ExStr "proto: unexpected end of group"]).
-Definition canon_var_ErrRecursionDepth : string * gexpr :=
+Definition canon_var_ErrRecursionDepth : gname * gexpr :=
   ("ErrRecursionDepth", ExPkgCall "fmt" "Errorf" [ExStr "proto: exceeded max recursion depth"]).
 
 Definition canon_runtime : program :=
@@ -1095,7 +1116,7 @@ Definition canon_runtime : program :=
      pg_funs := [canon_Sov; canon_Soz; canon_EncodeVarint; canon_Skip;
                  canon_SizeInputToOptions; canon_MarshalInputToOptions; canon_UnmarshalInputToOptions] |}.
 (* the names of the declarations in source order, as the translator lists them *)
-Definition canon_runtime_decls : list string :=
+Definition canon_runtime_decls : list gname :=
   ["Sov"; "Soz"; "EncodeVarint"; "Skip"; "SizeInputToOptions"; "MarshalInputToOptions"; "UnmarshalInputToOptions";
    "var:ErrInvalidLength"; "var:ErrIntOverflow"; "var:ErrUnexpectedEndOfGroup"; "var:ErrRecursionDepth"].
 
@@ -1161,7 +1182,7 @@ Definition canon_overflowPanic : fundecl :=
           [StIf (ExBin BGt (ExVar "cmp") (ExConst 0)) [StPanic (ExStr "time overflow")] []]] |}.
 
 (* const second = int32(time.Second) *)
-Definition canon_const_second : string * gexpr := ("second", ExConv TInt32 (ExQual "time" "Second")).
+Definition canon_const_second : gname * gexpr := ("second", ExConv TInt32 (ExQual "time" "Second")).
 
 (* func Add(t *tspb.Timestamp, d *durpb.Duration) *tspb.Timestamp {
      if t == nil { return nil }
@@ -1190,31 +1211,31 @@ Definition canon_Add : fundecl :=
 Definition canon_timepb : program :=
   {| pg_globals := [canon_const_second];
      pg_funs := [canon_IsZero; canon_Compare; canon_DurationIsNegative; canon_AddStd; canon_overflowPanic; canon_Add] |}.
-Definition canon_timepb_decls : list string :=
+Definition canon_timepb_decls : list gname :=
   ["IsZero"; "Compare"; "DurationIsNegative"; "AddStd"; "overflowPanic"; "const:second"; "Add"].
 
 (* lookup for the driver: the canonical declaration the translator's <file> <decl> is compared with *)
-Definition canon_program (file : string) : option program :=
+Definition canon_program (file : gname) : option program :=
   if str_eq file "runtime/runtime.go" then Some canon_runtime
   else if str_eq file "support/timepb/cmp.go" then Some canon_timepb
   else None.
-Definition canon_decls (file : string) : list string :=
+Definition canon_decls (file : gname) : list gname :=
   if str_eq file "runtime/runtime.go" then canon_runtime_decls
   else if str_eq file "support/timepb/cmp.go" then canon_timepb_decls
   else [].
-Fixpoint find_global (gs : list (string * gexpr)) (x : string) : option (string * gexpr) :=
+Fixpoint find_global (gs : list (gname * gexpr)) (x : gname) : option (gname * gexpr) :=
   match gs with
   | [] => None
   | g :: t => if str_eq (fst g) x then Some g else find_global t x
   end.
-Definition global_eqb (a b : string * gexpr) : bool := str_eq (fst a) (fst b) && gexpr_eqb (snd a) (snd b).
+Definition global_eqb (a b : gname * gexpr) : bool := str_eq (fst a) (fst b) && gexpr_eqb (snd a) (snd b).
 
 (* ======================================================================================================================
    Target statements (for the proof task): for every input, interpreting the canonical program with enough fuel gives
    exactly the hand-written model's answer. Fuel enters exists-free: [lf] iterations per loop and [dp] levels of calls are
    ADDED to the stated minimum, so each statement holds for every amount of fuel from the minimum up.
    ====================================================================================================================== *)
-Local Close Scope string_scope.
+Local Close Scope gname_scope.
 
 Definition in_ity (t : ity) (z : Z) : Prop := ity_in t z = true.
 Definition u64v (x : N) : gvalue := GvInt TUint64 (Z.of_N x).
@@ -1274,7 +1295,7 @@ Definition skip_prog_stmt : Prop :=
     skip_view r = Some (Skip bs) /\ (is_ok (Skip bs) = true \/ Skip bs = Err -> params_of r = Some [GvBytes bs]).
 
 (* the option builders: what the generated closures read from the result *)
-Local Open Scope string_scope.
+Local Open Scope gname_scope.
 Definition marshal_input (nul : gvalue) (flags : Z) : gvalue :=
   GvRec [("NoUnkeyedLiterals", nul); ("Flags", GvInt TUint8 flags)].
 Definition marshal_options_spec (nul : gvalue) (flags : Z) : gvalue :=
@@ -1289,10 +1310,10 @@ Definition child_limit (depth : Z) : Z := let l := wrap64 (depth - 1) in if (l <
 Definition unmarshal_options_spec (nul res : gvalue) (flags depth : Z) : gvalue :=
   GvRec [("RecursionLimit", GvInt TInt (child_limit depth)); ("NoUnkeyedLiterals", nul); ("Merge", GvBool true);
         ("AllowPartial", GvBool true); ("DiscardUnknown", GvBool (negb (Z.land flags 1 =? 0)%Z)); ("Resolver", res)].
-Local Close Scope string_scope.
+Local Close Scope gname_scope.
 
 Definition options_prog_stmt : Prop :=
-  forall (a b : string) (flags depth : Z) (lf dp : nat),
+  forall (a b : gname) (flags depth : Z) (lf dp : nat),
     in_ity TUint8 flags -> in_ity TInt depth ->
     let nul := GvOpaque a in
     let res := GvOpaque b in
@@ -1316,7 +1337,7 @@ Definition ts_image (o : outcome ts) (ps : list gvalue) : gres :=
   end.
 
 Definition iszero_prog_stmt : Prop :=
-  forall (p : option (list (string * gvalue))) (lf dp : nat),
+  forall (p : option (list (gname * gvalue))) (lf dp : nat),
     run_fun canon_timepb lf (1 + dp) "IsZero" [GvPtr p]
     = GOk [GvBool (match p with None => true | Some _ => false end)] [GvPtr p].
 
@@ -1345,7 +1366,7 @@ Definition add_prog_stmt : Prop :=
     run_fun canon_timepb lf (3 + dp) "Add" [ts_ptr t; ts_ptr d] = ts_image (TsAdd t d) [ts_ptr t; ts_ptr d].
 (* a nil timestamp gives nil whatever the duration; a nil duration panics *)
 Definition add_nil_prog_stmt : Prop :=
-  forall (t : ts) (p : option (list (string * gvalue))) (lf dp : nat),
+  forall (t : ts) (p : option (list (gname * gvalue))) (lf dp : nat),
     run_fun canon_timepb lf (3 + dp) "Add" [GvPtr None; GvPtr p] = GOk [GvPtr None] [GvPtr None; GvPtr p] /\
     run_fun canon_timepb lf (3 + dp) "Add" [ts_ptr t; GvPtr None] = GPanic.
 
